@@ -109,6 +109,11 @@ package smpp
 //@   requires !packet.rfailed(r)
 //@   requires isperm(ord, M) && tlvwf(M) && packet.rem(r) == tlvser(M, ord, 0, len(M))
 //@   ensures [C16,C01,C02 parsed] err == nil && !packet.rfailed(r) && mapeq(result, M)
+//@   behavior dup props=C16
+//@   ghost k int
+//@   requires !packet.rfailed(r) && tseq(packet.rem(r)) && 0 <= k && k < 65536
+//@   ensures [C16 last.dom] mapdom(result, k) <==> thas(old(packet.rem(r)), k)
+//@   ensures [C16 last.value] mapdom(result, k) ==> content(result[k].value) == tlast(old(packet.rem(r)), k) && int(result[k].length) == len(result[k].value) && int(result[k].tag) == k
 //@   loop 1
 //@     invariant packet.rinv(r)
 //@     invariant tlvwf(tlvs) && fresh(tlvs)
@@ -119,6 +124,11 @@ package smpp
 //@     invariant @ser len(tlvs) == iter
 //@     invariant @ser forall k int :: mapdom(tlvs, k) <==> (mapdom(M, k) && ordinv(ord, k) < iter)
 //@     invariant @ser forall k int :: mapdom(tlvs, k) ==> tlvs[k].tag == M[k].tag && tlvs[k].length == M[k].length && content(tlvs[k].value) == content(M[k].value)
+//@     invariant @dup !packet.rfailed(r) && tseq(packet.rem(r))
+//@     invariant @dup thas(entry(packet.rem(r)), k) <==> (thas(packet.rem(r), k) || mapdom(tlvs, k))
+//@     invariant @dup thas(packet.rem(r), k) ==> tlast(entry(packet.rem(r)), k) == tlast(packet.rem(r), k)
+//@     invariant @dup !thas(packet.rem(r), k) && mapdom(tlvs, k) ==> content(tlvs[k].value) == tlast(entry(packet.rem(r)), k)
+//@     invariant @dup mapdom(tlvs, k) ==> int(tlvs[k].length) == len(tlvs[k].value) && int(tlvs[k].tag) == k
 //@     decreases len(packet.rem(r))
 
 // ---------------------------------------------------------------- validity period (C19)
